@@ -88,11 +88,13 @@ Lemma w_order_valid_exists : order_ok w_order_items [ mkItem 2 3 [4] []; mkItem 
 Proof. vm_compute. reflexivity. Qed.
 
 Theorem chained_order_refuted : exists ch dis items order,
-  domain_okb dis items = true /\ resolve ch dis items = Ok order /\ ~ respects items order /\
+  domain_okb dis items = true /\ region_of items = RNoRequire /\
+  resolve ch dis items = Ok order /\ ~ respects items order /\
   exists good, order_ok items good = true.
 Proof.
   exists ch0, dis0, w_order_items, w_order_result. destruct w_order_resolved as [A B].
-  split; [exact A|]. split; [exact B|]. split; [exact w_order_violates|]. eexists. exact w_order_valid_exists.
+  split; [exact A|]. split; [vm_compute; reflexivity|]. split; [exact B|]. split; [exact w_order_violates|].
+  eexists. exact w_order_valid_exists.
 Qed.
 
 (* names 1 E 2 F 3 P 4 S ; keys 5 [b] 6 [c] 7 [d]:
@@ -106,9 +108,11 @@ Lemma w_lost_resolved : domain_okb dis0 w_lost_items = true /\
 Proof. split; vm_compute; reflexivity. Qed.
 
 Theorem chained_lost_item_refuted : exists ch dis items order,
-  domain_okb dis items = true /\ resolve ch dis items = Ok order /\ ~ Permutation order items.
+  domain_okb dis items = true /\ region_of items = RNoRequire /\
+  resolve ch dis items = Ok order /\ ~ Permutation order items.
 Proof.
-  exists ch0, dis0, w_lost_items. eexists. destruct w_lost_resolved as [A B]. split; [exact A|]. split; [exact B|].
+  exists ch0, dis0, w_lost_items. eexists. destruct w_lost_resolved as [A B]. split; [exact A|].
+  split; [vm_compute; reflexivity|]. split; [exact B|].
   intros H. apply Permutation_length in H. cbn in H. discriminate.
 Qed.
 
@@ -117,8 +121,22 @@ Qed.
 Definition w_panic_items : list item := [ mkItem 0 1 [4; 5] []; mkItem 1 2 [4; 5] []; mkItem 2 3 [] [4; 5] ].
 
 Theorem chained_panic_refuted : exists ch dis items,
-  domain_okb dis items = true /\ resolve ch dis items = Panic.
-Proof. exists ch0, dis0, w_panic_items. split; vm_compute; reflexivity. Qed.
+  domain_okb dis items = true /\ region_of items = RNoRequire /\ resolve ch dis items = Panic.
+Proof. exists ch0, dis0, w_panic_items. repeat split; vm_compute; reflexivity. Qed.
+
+(* the same panic when every doubly provided entity is required by one of its providers:
+   A provides a b;  B requires a b;  C provides a b and requires a b. *)
+Definition w_shared_items : list item := [ mkItem 0 1 [4; 5] []; mkItem 1 2 [] [4; 5]; mkItem 2 3 [4; 5] [4; 5] ].
+
+Theorem chained_shared_panic_refuted : exists ch dis items,
+  domain_okb dis items = true /\ region_of items = RShared /\ resolve ch dis items = Panic.
+Proof. exists ch0, dis0, w_shared_items. repeat split; vm_compute; reflexivity. Qed.
+
+(* the shape that occurs among the built-in items lies in neither region *)
+Example renames_region : region_of renames_items' = RRenames.
+Proof. vm_compute. reflexivity. Qed.
+Example burndown_region : region_of burndown_items = RUnchained.
+Proof. vm_compute. reflexivity. Qed.
 
 (* ---- deployment: a three-item registry with a feature-gated provider ----
    names 1 Leaf 2 Mid 3 Gated ; keys 11 x 12 y ; feature 21.
